@@ -63,6 +63,7 @@ HARNESSES = {
     'atomic_diff': dict(src='harness/atomic_diff.cpp', kind='seq'),
     'pipeline': dict(src='harness/pipeline.cpp', kind='seq', extra=['engine/seq_support.cpp']),
     'alloc': dict(src='harness/alloc.cpp', kind='seq', extra=['engine/seq_support.cpp']),
+    'repro': dict(src='harness/repro.cpp', kind='seq'),
     'shared': dict(src='harness/shared.cpp', kind='mc'),
     'when_all': dict(src='harness/when_all.cpp', kind='mc'),
     'strand': dict(src='harness/strand.cpp', kind='mc'),
@@ -426,6 +427,23 @@ CHECKS = {
         assumptions=['FIBER instantiation, g++ 12 coroutine lowering; sequentially consistent executions; preemption bounds as stated',
                      'FIFO is checked on the chain cell where arrival order is fixed by construction (spawn edges), not by timestamps'],
         technique='stateless model checking: exhaustive preemption-bounded schedule enumeration of the implementation',
+    ),
+    'C17': dict(
+        title='Fiber fault-injection runs are reproducible from their seed',
+        level_text='(a) rng-level exploration: only the random engine is hooked, the real injection counter, list-pick arithmetic, '
+                   'spurious-failure draw, sleep jitter and scheduler run; EVERY sequence of engine answers up to depth 12 (thorough 16; all '
+                   'domains have size 2 by configuration) for 5 client programs (pool + strand pipeline, timed waits, coroutine mutex on a pool, '
+                   'condition-variable ping-pong, timed-mutex hand-off) is executed twice in one process after SetSeed + injector reset and '
+                   'every 32nd (256th) sequence once more in a freshly exec\'ed process; traces of resumed fibers, engine draws, visible '
+                   'operations, client events, injected count, random count and virtual time must be identical; (b) bounded real-seed '
+                   'enumeration of the restore API: seeds 0..255 (4095) x fault frequency {1,2,5} x pick width {1,2,10} x jitter {1,7}: '
+                   'phase B after SetSeed + ForwardToFaultRandomCount + SetInjectorState equals phase B of the whole run; (c) crash probe of an '
+                   'edge program under real seeds',
+        budget=dict(quick=200, thorough=1500),
+        runs=[seq('repro', 'fib-asan')],
+        assumptions=['"all seeds" is covered as all engine answer sequences up to the stated depth (exhaustive) plus a bounded seed range (exhaustive within the range)',
+                     'the explorer\'s own prefix-replay divergence check over every execution of every other harness is further evidence (any divergence is a hard error there)'],
+        technique='bounded exhaustive enumeration of random-engine answer sequences on the real scheduler, each replayed in-process and across processes',
     ),
     'C18': dict(
         title='yaclib_std locks, condition variables and threads behave like std under fibers',
